@@ -1075,3 +1075,60 @@ def r13(R):
                 last = g.nodes[v.path[-2]] if len(v.path) > 1 else v.node
                 R.violation(last, v.message, g, v.path)
     R.require(n >= 3, 'only %d record loops found' % n)
+
+
+# ------------------------------------------------------------------ C17.R14
+@rule('C17.R14', 'a copy loop that fails leaves the destination outside a '
+      'transaction: every raising exit taken while a destination '
+      'transaction is open (begun, not yet voted) passes tpc_abort',
+      props=['C05'], min_instances=2)
+def r14(R):
+    n = 0
+    # (the library helpers; the recovery tool is a process of its own that
+    # ends with the exception -- its loop is C17.R5's)
+    for q in COPIERS:
+        if q.startswith('ZODB.fsrecover.'):
+            continue
+        f = R.prog.func(q)
+        g, b, F = R.cfg(f, None, max_depth=0)
+        begins = [0]
+
+        def edge(node, st, lab, tgt, F=F, begins=begins):
+            # st: 'idle' | 'open' | 'voted'
+            hit = None
+            for op in F.ops(node):
+                if op.kind == 'call' and op.path:
+                    if op.path[-1] in ('tpc_begin', 'tpc_vote', 'tpc_finish',
+                                       'tpc_abort'):
+                        hit = op.path[-1]
+            if hit == 'tpc_begin':
+                begins[0] += 1
+                # (a tpc_begin that raises has not begun)
+                return 'idle' if lab in ('e', 'eb') else 'open'
+            if hit == 'tpc_vote':
+                # a failing vote leaves the transaction open
+                return st if lab in ('e', 'eb') else 'voted'
+            if hit in ('tpc_finish', 'tpc_abort'):
+                return 'idle'
+            return st
+
+        def at(node, st, f=f):
+            if node.id == g.exit_raise and st == 'open':
+                return Violation(
+                    '%s can fail with the destination transaction it began '
+                    'still open: the destination keeps its commit lock, and '
+                    'the caller, who only gets the exception, cannot abort '
+                    'it -- every later tpc_begin on that storage blocks' %
+                    f.short)
+            return st
+
+        vs, stats = explore(g, 'idle', at=at, edge=edge)
+        R.count(stats)
+        if begins[0]:
+            n += 1
+            R.instance('%s' % f.short)
+        for v in vs[:1]:
+            R.violation((f.module.relpath, f.qualname,
+                         'destination transaction left open on failure'),
+                        v.message, g, v.path)
+    R.require(n >= 2, 'copy loops that begin destination transactions: %d' % n)
